@@ -9,7 +9,7 @@ from common import hexs
 ID = "C17"
 DRIVER = "node"
 MODEL_FILES = ["Model/Base.v", "Model/Parse.v", "Model/Node.v", "Model/Net.v", "Model/Sched.v"]
-THEOREMS = ["C17_conn_init", "C17_conn_step", "C17_conn_run", "C17_conn_never_negative", "C17_conn_back_to_previous", "C17_usedb_wrong_token_noop", "C17_conn_key_run", "C17_conn_key_run_from_init", "C17_conn_watchers_notified", "C17_conn_full_run", "C17_key_stuck_at_saturated_version_refuted", "C17_inv_needs_sel_exists", "C17_net_conn_step", "C17_net_conn_run", "C17_net_conn_run_from_init"]
+THEOREMS = ["C17_conn_init", "C17_conn_step", "C17_conn_run", "C17_conn_never_negative", "C17_conn_back_to_previous", "C17_usedb_wrong_token_noop", "C17_conn_key_run", "C17_conn_key_run_from_init", "C17_conn_watchers_notified", "C17_conn_full_run", "C17_key_stuck_at_saturated_version_refuted", "C17_inv_needs_sel_exists", "C17_net_conn_step", "C17_net_conn_run", "C17_net_conn_run_from_init", "C17_sched_key_agrees", "C17_sched_counter_agrees", "C17_sched_run_par", "C17_sched_usedb_sequential", "C17_sched_release_ustep", "C17_race_without_recheck", "C17_sched_key_stuck_saturated", "C17_two_sessions_any_schedule"]
 STRENGTH = {t: "proof-unbounded" for t in THEOREMS}
 RULE = ("exhaustive event sequences (length <= 4 quick / 5 thorough) over connect / use-db {d1, d2, wrong token, user token, "
         "unknown db} / disconnect / HTTP bodies with 0-2 use-db on up to 3 sessions and 2 databases, plus seeded random longer "
